@@ -168,6 +168,9 @@ class ReconnH(explore.Harness):
                         for trig in ("zc-same", "ensure"):
                             for k in (1, 2):
                                 m.append(f"{t}+{trig}@{k}")
+            elif t == "zc-changed-last":
+                if len(self.cur_hosts) > 1:
+                    m.append(t)  # the LAST advertised address is replaced: the new set overlaps the old one in a different member
             else:
                 m.append(t)
         return m
@@ -215,11 +218,11 @@ class ReconnH(explore.Harness):
         elif k == "idle":
             self.idles += 1
             self.loop._vtime += 50.0
-        elif k in ("zc-same", "zc-changed"):
-            if k == "zc-changed":
+        elif k in ("zc-same", "zc-changed", "zc-changed-last"):
+            if k != "zc-same":
                 if self.alt_hosts:
                     self.prev_hosts = list(self.cur_hosts)
-                    self.cur_hosts = [self.alt_hosts.pop(0)] + self.cur_hosts[1:]
+                    self.cur_hosts = ([self.alt_hosts.pop(0)] + self.cur_hosts[1:]) if k == "zc-changed" else (self.cur_hosts[:-1] + [self.alt_hosts.pop(0)])
                     self.model_excluded.clear()  # a changed address set makes every advertised address eligible again (eager model)
                     self.lazy_clear_pending = True
                     self.hosts_changed_at = len(self.net.attempts)
